@@ -67,6 +67,7 @@ func cmdVerify(args []string) {
 	verbose := fs.Bool("v", false, "list every obligation")
 	dump := fs.String("dump", "", "dump the full VC of matching units into this directory")
 	showModel := fs.String("showmodel", "", "regexp: print matching scalar constants of counterexample models")
+	doReplay := fs.Bool("replay", false, "try to replay counterexamples of failing obligations on the real code")
 	split := fs.Bool("split", false, "on failure, try each conjunct of the goal separately (diagnostics)")
 	var subs multiFlag
 	fs.Var(&subs, "sub", "in-memory source rewrite FILE:::OLD:::NEW (relative to /repo), repeatable")
@@ -137,6 +138,13 @@ func cmdVerify(args []string) {
 						if re.MatchString(kv[0]) {
 							fmt.Printf("        %s = %s\n", kv[0], kv[1])
 						}
+					}
+				}
+				if !ob.ok() && *doReplay && ob.Result != nil && ob.Result.Status == "sat" {
+					rep := replayModel(w, r, ob)
+					fmt.Printf("        REPLAY confirmed=%v note=%v [%v]\n", rep["confirmed"], rep["note"], rep["model_session"])
+					if os.Getenv("GOVC_SHOWTEST") != "" {
+						fmt.Printf("%v\n--- log:\n%v\n", rep["go_test"], rep["replay_log"])
 					}
 				}
 				if !ob.ok() && *split {
